@@ -129,13 +129,13 @@ func c06Exec(c *fw.Ctx, cas c06Case) (nontrivial bool) {
 
 func c06Run(c *fw.Ctx) {
 	n := 0
-	limits := []int{1, 10, 100, 1000, 5000}
+	limits := []int{0, 1, 10, 100, 1000, 5000} // 0: nothing but the empty message fits
 	if c.Thorough() {
 		limits = append(limits, 2, 3, 4, 5, 50, 51, 52, 65536, 1000000)
 	}
 	for _, be := range []string{"mem", "file"} {
 		for _, L := range limits {
-			sizes := map[int]bool{0: true, 2 * L: true, 10 * L: true}
+			sizes := map[int]bool{0: true, 2 * L: true, 10 * L: true, L + 20: true, L + 200: true}
 			for dlt := -3; dlt <= 3; dlt++ {
 				if L+dlt >= 0 {
 					sizes[L+dlt] = true
